@@ -399,7 +399,15 @@ func (f *fwd) sendOne(i int) {
 		ri.req = c.Send("options", "", &message.Options{}, nil)
 	case kRegister:
 		ri.kind = "register"
-		ri.req = c.Send("register", "", &message.Register{EventTypes: []primitive.EventType{primitive.EventTypeSchemaChange}}, nil)
+		// any non-empty list of event types is answered READY, whichever types it names
+		evs := [][]primitive.EventType{
+			{primitive.EventTypeSchemaChange},
+			{primitive.EventTypeTopologyChange, primitive.EventTypeStatusChange},
+			{primitive.EventTypeStatusChange},
+			{primitive.EventTypeTopologyChange, primitive.EventTypeStatusChange, primitive.EventTypeSchemaChange},
+			{primitive.EventTypeTopologyChange},
+		}
+		ri.req = c.Send("register", "", &message.Register{EventTypes: evs[ch.Choose("regtypes", len(evs))]}, nil)
 	case kUse:
 		ks := []string{"ks1", "ks2", "\"Ks3\""}[ch.Choose("useks", 3)]
 		ri.kind = "use"
